@@ -31,6 +31,7 @@ func init() {
 			"renumber a header to n-1,n+1,start-1,start+limit,0, replace parentHash/hash, wrong result types, every log moved out of range / to every other in-range block (with and without blockHash) / duplicated / dropped / other transactionIndex / other logIndex, " +
 			"every receipt renumbered (out of range, every other in-range block with and without blockHash) / swapped transactionIndex / dropped / duplicated, every trace renumbered (likewise) / other transactionPosition, blockHash and transactionHash of every log / receipt / trace removed, empty (0x), 31 bytes, another fork's hash, and short blockHash on the first item of a block combined with a foreign hash on each later item (the log hash operators: quick tier on the uncached URL only), / dropped / duplicated, " +
 			"body truncated at 0,1,len/2,len-1,inside a string, HTTP status {301,400,429,500,503} x {valid JSON body, text body}, transport error, object<->array, top-level null, empty batch; operators yielding a byte-identical response are enumerated once; " +
+			"lagging node: every request of the call answered faithfully from a chain whose head is h, for every h in [start-1, start+limit-1] (null above h, logs/receipts/traces only up to h); " +
 			"the same families for Client.Latest and Client.Hash (incl. a block beyond the head); thorough: 7 more ranges and ALL PAIRS of corruptions (same or different exchanges, applied in enumeration order; the combined bhash2, the transactionHash and the missing/empty log blockHash operators are not paired) for every plan on ranges (3,2),(1,3),(5,3) uncached and (3,2) cached, and for Latest and Hash(4). " +
 			"after every single-corruption case (and uncorrupted beyond-head case) that FAILED on a stateful client (cached URL with headers/blocks, Client.Latest) the call is repeated on the same client with the node answering the same corrupted answers and with honest answers; the repeated call is judged against its own responses, or, where it fetched nothing itself, against the answer the cache took it from. " +
 			"A case is non-trivial when every corruption of the case was reached and changed the response (baselines are trivial unless the range extends beyond the head).",
@@ -43,6 +44,7 @@ func init() {
 			"the sentinel header of the eth_getLogs exchange is judged for presence only (no error object, result not null); its number/hash are not returned data",
 			"an empty receipts array / empty log list is a consistent answer (empty block); only null or missing results and short batches must fail",
 			"cases whose verdict may depend on Go map iteration order inside the client (the logs naming one block do not all carry the same blockHash bytes, or not the header's) are executed 120 times; the findings of all executions are united",
+			"a lagging-node case that returns without error is additionally judged against the answers a node holding the whole range gives to the same requests (the call must fail or return exactly the data of the full range); pairs of a lagging node with another corruption are judged by the ordinary clauses only",
 			"simeth serves what its Exchange log says it served",
 		},
 		Budget:        map[string]time.Duration{"quick": 80 * time.Second, "thorough": 850 * time.Second},
@@ -261,6 +263,13 @@ func baseline(c *fw.Ctx, cs *Case, owner bool, expectOK bool) []Op {
 		}
 		ops = append(ops, enumOps(k, ex, tree, oc, cs.Cached && !c.Thorough())...)
 	}
+	// lagging node: every request of the call is answered faithfully from a chain whose head is
+	// h, for every h in [start-1, start+limit-1] (the last one covers the range: a sanity case)
+	if cs.Call == "get" && len(out.ex) > 0 {
+		for h := cs.Start - 1; h <= cs.Start+cs.Limit-1; h++ {
+			ops = append(ops, Op{K: -1, Name: "lag", N: int64(h)})
+		}
+	}
 	return ops
 }
 
@@ -278,7 +287,7 @@ func pairEligible(o Op) bool {
 }
 
 func pairable(a, b Op) bool {
-	if !pairEligible(a) || !pairEligible(b) {
+	if !pairEligible(a) || !pairEligible(b) || a.Name == "lag" && b.Name == "lag" {
 		return false
 	}
 	if a.K != b.K {
